@@ -22,6 +22,13 @@ pub struct ExInstant(Instant);
 pub assume_specification<Idx: Clone>[ <Range<Idx> as Clone>::clone ](r: &Range<Idx>) -> (c: Range<Idx>)
     ensures call_ensures(Idx::clone, (&r.start,), c.start), call_ensures(Idx::clone, (&r.end,), c.end);
 
+pub assume_specification<T, E, U>[ Result::<T, E>::and ](r: Result<T, E>, res: Result<U, E>) -> (out: Result<U, E>)
+    ensures out == (match r { Ok(_) => res, Err(e) => Err(e) });
+
+pub assume_specification<T>[ <[T]>::swap ](s: &mut [T], a: usize, b: usize)
+    requires a < old(s)@.len(), b < old(s)@.len(),
+    ensures final(s)@ == old(s)@.update(a as int, old(s)@[b as int]).update(b as int, old(s)@[a as int]);
+
 // ---------------------------------------------------------------------------------------------
 // 3.1 sequences and equality: the two purity axioms
 // ---------------------------------------------------------------------------------------------
